@@ -135,6 +135,11 @@ func runC12Bookkeeping(sum *Summary) error {
 			stored++
 			es = append(es, gEntry{Idx: uint64(stored), Cmd: gCmd{Kind: regattapb.Command_PUT, K: bytes.Repeat([]byte{0}, l), V: []byte("v")}})
 		}
+		// ... and the largest ones (keys made of 0xff bytes only, of every length up to the maximum the API admits)
+		for _, l := range []int{2, 1018, 1019, 1020, 1023, 1024} {
+			stored++
+			es = append(es, gEntry{Idx: uint64(stored), Cmd: gCmd{Kind: regattapb.Command_PUT, K: bytes.Repeat([]byte{0xff}, l), V: []byte("v")}})
+		}
 		for _, k := range [][]byte{{0, 1}, {1}, []byte("a"), {0xff}} {
 			stored++
 			es = append(es, gEntry{Idx: uint64(stored), Cmd: gCmd{Kind: regattapb.Command_PUT, K: k, V: []byte("v")}})
@@ -153,7 +158,7 @@ func runC12Bookkeeping(sum *Summary) error {
 				n += pg.Count
 			}
 			if n != int64(stored) {
-				sum.violate(320000, "the wildcard range [\\0, \\0) does not cover every stored key", map[string]any{"stored": "keys of 1, 2, 5, 300, 1018, 1019, 1020, 1024 NUL bytes, and 00 01, 01, 'a', ff", "keys_only": q.KeysOnly, "count_only": q.CountOnly},
+				sum.violate(320000, "the wildcard range [\\0, \\0) does not cover every stored key", map[string]any{"stored": "keys of 1, 2, 5, 300, 1018, 1019, 1020, 1024 NUL bytes, of 1, 2, 1018, 1019, 1020, 1023, 1024 0xff bytes, and 00 01, 01, 'a'", "keys_only": q.KeysOnly, "count_only": q.CountOnly},
 					fmt.Sprintf("%d of %d pairs", n, stored))
 				return nil
 			}
@@ -166,7 +171,7 @@ func runC12Bookkeeping(sum *Summary) error {
 			}
 			sum.Evaluations++
 			if cnt.n != stored {
-				sum.violate(320002, "the table export does not contain every stored key", map[string]any{"stored": "keys of 1, 2, 5, 300, 1018, 1019, 1020, 1024 NUL bytes, and 00 01, 01, 'a', ff"}, fmt.Sprintf("%d of %d pairs exported", cnt.n, stored))
+				sum.violate(320002, "the table export does not contain every stored key", map[string]any{"stored": "keys of 1, 2, 5, 300, 1018, 1019, 1020, 1024 NUL bytes, of 1, 2, 1018, 1019, 1020, 1023, 1024 0xff bytes, and 00 01, 01, 'a'"}, fmt.Sprintf("%d of %d pairs exported", cnt.n, stored))
 				return nil
 			}
 		}
@@ -177,6 +182,28 @@ func runC12Bookkeeping(sum *Summary) error {
 		sum.Evaluations++
 		if d := res[0].Resps[0].GetResponseDeleteRange().GetDeleted(); d != int64(stored) {
 			sum.violate(320001, "a wildcard range delete does not report every stored key", map[string]any{"stored": stored}, fmt.Sprintf("deleted %d", d))
+		}
+		// ... and deletes every one of them: nothing is left, for a wildcard read and for the export alike
+		sum.Evaluations++
+		left, err := g.iterate(gRange{Key: []byte{0}, End: []byte{0}})
+		if err != nil {
+			return err
+		}
+		var nleft int64
+		var first []byte
+		for _, pg := range left {
+			nleft += pg.Count
+			if first == nil && len(pg.Kvs) > 0 {
+				first = pg.Kvs[0].Key
+			}
+		}
+		var cnt2 countWriter
+		if _, err := g.f.Lookup(fsm.SnapshotRequest{Writer: &cnt2}); err != nil {
+			return err
+		}
+		if nleft != 0 || cnt2.n != 0 {
+			sum.violate(320003, "a stored key survives a wildcard range delete (it lies outside the range the '\\0' wildcard addresses for deletes)", map[string]any{"stored": "keys of 1..1024 NUL bytes, of 1..1024 0xff bytes, and 00 01, 01, 'a'"},
+				fmt.Sprintf("%d pairs left (first: %d bytes, first byte %x), %d exported", nleft, len(first), trunc(first), cnt2.n))
 		}
 	}
 	// a point lookup of a key that is not stored finds nothing - also when a stored key has it as a proper prefix, or
